@@ -70,6 +70,20 @@ fn cases_unicode(_rng: &mut Rng, sink: &mut dyn FnMut(J) -> bool) {
 
 fn cases_issuer_inputs(rng: &mut Rng, sink: &mut dyn FnMut(J) -> bool) {
     let mut n = 0usize;
+    // Custom paths with out-of-range / huge / malformed array indices at every array level
+    let arrays = json!({"iss": "i", "exp": FAR_EXP, "nationalities": ["US", "CA"], "addresses": [{"c": "x"}, []], "m": [[1, 2], [3]], "e": [], "one": [[[]]]});
+    let idx = ["0", "1", "2", "3", "99", "255", "256", "65536", "4294967295", "4294967296", "9223372036854775807", "9223372036854775808", "18446744073709551615", "18446744073709551616", "-1", "00", "01", "+1", "1e1", " 1", "1 ", "", "x"];
+    for i in idx {
+        for tmpl in ["$.nationalities[{}]", "$.addresses[1][{}]", "$.addresses[{}].c", "$.e[{}]", "$.m[0][{}]", "$.m[{}][0]", "$.m[1][{}]", "$.m.[{}]", "$.m[0].[{}]", "$.one[0][0][{}]", "$.one[{}][{}][{}]", "$.iss[{}]"] {
+            n += 1;
+            let path = tmpl.replace("{}", i);
+            let paths = if n % 2 == 0 { json!([path]) } else { json!(["$.nationalities[0]", path, "$.m[0][1]"]) };
+            let case = json!({"op": "issue", "claims": arrays, "strategy": {"Custom": paths}, "format": if n % 2 == 0 { "compact" } else { "json" }, "alg": "ES256", "decoys": n % 3 == 0, "holder": null, "roundtrip": n % 5 == 0});
+            if !sink(case) {
+                return;
+            }
+        }
+    }
     let strategies = [json!("AllLevels"), json!("TopLevel"), json!("NoSD"), json!({"Custom": ["$.a"]}), json!({"Custom": []})];
     // non-object claims and odd objects
     for claims in [
